@@ -21,6 +21,7 @@ import (
 	"github.com/ucan-wg/go-ucan/token/invocation"
 
 	"verif/harness/api"
+	"verif/harness/cbor"
 	"verif/harness/env"
 	"verif/harness/h"
 	"verif/harness/keys"
@@ -62,7 +63,7 @@ type Case struct {
 
 var byteKinds = []string{"bitflip", "delete", "insert-00", "insert-ff", "insert-copy", "subst-00", "subst-ff", "subst-not"}
 var fieldKinds = []string{"rewrite", "remove", "add-unknown"}
-var sigKinds = []string{"resign-by-prefix-twin", "issuer-signs-header-insert", "issuer-signs-header-insert", "issuer-signs-header-delete", "issuer-signs-header-subst", "issuer-signs-header-dup-segment", "issuer-signs-foreign-header", "issuer-signs-garbled-header", "issuer-signs-empty-header", "issuer-signs-extended-header", "resign-other-same-alg", "resign-other-alg", "resign-signer-header", "borrow-signature", "header-other-alg", "header-garbled", "header-empty", "sig-truncate", "sig-empty", "sig-extend", "sig-zero"}
+var sigKinds = []string{"issuer-signs-noncanonical-bytes", "issuer-signs-noncanonical-bytes", "resign-by-prefix-twin", "issuer-signs-header-insert", "issuer-signs-header-insert", "issuer-signs-header-delete", "issuer-signs-header-subst", "issuer-signs-header-dup-segment", "issuer-signs-foreign-header", "issuer-signs-garbled-header", "issuer-signs-empty-header", "issuer-signs-extended-header", "resign-other-same-alg", "resign-other-alg", "resign-signer-header", "borrow-signature", "header-other-alg", "header-garbled", "header-empty", "sig-truncate", "sig-empty", "sig-extend", "sig-zero"}
 
 var dlgFields = []string{"iss", "aud", "sub", "cmd", "pol", "nonce", "meta", "nbf", "exp"}
 var invFields = []string{"iss", "aud", "sub", "cmd", "args", "prf", "nonce", "meta", "exp", "iat", "cause"}
@@ -215,6 +216,34 @@ func corrupt(cs Case, sealed []byte) (out []byte, oldSig bool, ok bool) {
 		}
 		b, err := env.Assemble(e.Sig, env.SigPayloadNode(e.Header, e.Tag, np.Node()))
 		return b, true, err == nil
+	case "issuer-signs-noncanonical-bytes":
+		// the issuer's own key signs a NON-canonical serialization of the header+payload map (keys permuted,
+		// a head written non-minimally, an indefinite length ...): the property ties the signature to the
+		// CANONICAL encoding of what was decoded, so this signature does not cover it
+		root, _, perr := cbor.Parse(sealed)
+		if perr != nil || len(root.Items) != 2 {
+			return nil, false, false
+		}
+		sp := root.Items[1]
+		kinds := []string{"permute-keys", "nonminimal-1", "nonminimal-2", "indefinite", "permute-keys", "nonminimal-4"}
+		kind := kinds[c.Alt%len(kinds)]
+		var cands []int
+		for j := 0; j < sp.Count(); j++ {
+			if cbor.Applicable(sp.Nth(j), kind) {
+				cands = append(cands, j)
+			}
+		}
+		if len(cands) == 0 {
+			return nil, false, false
+		}
+		cbor.Apply(sp.Nth(cands[(c.Alt/len(kinds))%len(cands)]), kind)
+		raw := sp.Bytes()
+		sig, serr := iss.Key().Priv.Sign(raw)
+		if serr != nil {
+			return nil, false, false
+		}
+		root.Items[0] = cbor.BytesItem(sig)
+		return root.Bytes(), false, true
 	case "resign-by-prefix-twin":
 		// the issuer field names RSA key 0, the signature is made by its prefix twin (keys.RSATwinIdx), after an
 		// honest token of the twin has been decoded in this process
